@@ -24,4 +24,8 @@ def jobs(tier):
     add('cp_to_utf8', 'h_cp_to_utf8', ['C02'], 6, dict(N=1), 300, 'convert(utf32->utf8): shortest-form encoding of every scalar, surrogates and > U+10FFFF rejected', 'all 2^32 code point values')
     for n in ([1, 2, 3, 4, 5] if t else [1, 2, 3, 4]):
         add('escape_n%d' % n, 'h_escape', ['C01', 'C08'], n + 2, dict(N=n), 900, 'escape_string: unescape(escape(s))==s, legal escapes only, ASCII-only under escape_all_non_ascii, ill-formed -> ser_error', 'all byte strings of length %d x both flags' % n)
+    SAFETY_IDS = ['validate_n4', 'count_cp_n3', 'to_cp_n4', 'cp_to_utf8', 'escape_n3']
+    for j in list(J):
+        if j['id'] in SAFETY_IDS:
+            J.append(dict(j, id=j['id'] + '_safety', props=['C05'], safety=True, desc=j['desc'] + ' [safety mode]'))
     return J
